@@ -713,6 +713,7 @@ func Run(c *hx.Ctx) error {
 		runExpr(c, g, t, false)
 	}
 	nCodec := n / 15
+	runWireDesc(c)
 	for i := 0; i < n; i++ {
 		if hangs >= 3 {
 			c.Stats.Notes = append(c.Stats.Notes, "stopped early: ParseExpr did not terminate on 3 printed conditions")
